@@ -820,4 +820,12 @@ N('RW-header-append-plus-extend', ['C16'], 'frame.py', 'Frame._to_str_records',
 B('NP-in1d-back', ['C14', 'C08'], 'util.py', 'isin_array',
   'func = np.isin #', 'func = np.in1d if array.ndim == 1 else np.isin #', 'I.numpy-removed-api', None)
 
+# ---------------------------------------------------------------------------------- sibling defaults
+B('SD-sort-ascending-default', ['C12'], 'series.py', 'Series.sort_index',
+  'ascending: bool = True,', 'ascending: bool = False,', 'G.sibling-defaults', None)
+B('SD-fillna-limit-default', ['C14'], 'series.py', 'Series.fillna_forward',
+  'limit: int = 0', 'limit: int = 1', 'G.sibling-defaults', None)
+B('SD-window-step-default', ['C13'], 'frame.py', 'Frame._axis_window_items',
+  'step: int = 1,', 'step: int = 0,', 'G.sibling-defaults', None)
+
 VARIANTS = V
